@@ -382,11 +382,6 @@ impl Net {
 				self.ev(json!({"ev":"event","node":i,"kind":"PaymentForwarded","fee":total_fee_earned_msat.unwrap_or(0)}));
 			},
 			Event::HTLCHandlingFailed { failure_type, .. } => {
-				if let lightning::events::HTLCHandlingFailureType::Receive { payment_hash } = &failure_type {
-					// the user learns that (part of) the payment was failed back: it will not claim it
-					let h = self.hash(&payment_hash.0);
-					self.claimable_seen.retain(|x| *x != (i, h));
-				}
 				let t: String = format!("{:?}", failure_type).chars().take_while(|c| c.is_alphanumeric()).collect();
 				self.ev(json!({"ev":"event","node":i,"kind":"HTLCHandlingFailed","type":t}));
 			},
@@ -814,6 +809,7 @@ impl Net {
 						None => { self.skipped += 1; return; },
 					}
 				}
+				if name == "failback" { self.claimable_seen.retain(|x| *x != (dst, h)); }
 				self.ev(json!({"ev":name,"node":dst,"hash":h,"height":self.height()}));
 				if name == "claim" { self.nodes[dst].node.claim_funds(pre); } else { self.nodes[dst].node.fail_htlc_backwards(&hash); }
 				self.drain();
